@@ -93,6 +93,7 @@ def run_ceremony(
     answer: str = "Yes",
     force: bool = False,
     prev_xml: str | None = None,
+    prev_cli_xml: str | None = None,
     ksr_xml: str | None = None,
     now_us: int | None = None,
     rp_extra: dict[str, Any] | None = None,
@@ -118,6 +119,10 @@ def run_ceremony(
     if prev_xml is not None:
         prev_path = workdir / "prev-skr.xml"
         prev_path.write_text(prev_xml)
+    prev_cli_path = None
+    if prev_cli_xml is not None:
+        prev_cli_path = workdir / "prev-skr-commandline.xml"
+        prev_cli_path.write_text(prev_cli_xml)
     out_path = workdir / "skr.xml"
     if preexisting is not None:
         out_path.write_bytes(preexisting)
@@ -149,7 +154,7 @@ def run_ceremony(
                     obs["outcome"] = lib.classify_exception(exc)
                 if config is not None:
                     args = argparse.Namespace(
-                        schema=schema_arg, previous_skr=None, ksr=None, skr=None, config=str(cfg_path), force=force, hsm=hsm_arg,
+                        schema=schema_arg, previous_skr=(str(prev_cli_path) if prev_cli_path else None), ksr=None, skr=None, config=str(cfg_path), force=force, hsm=hsm_arg,
                         log_ksr_contents=False, log_skr_contents=False, log_previous_skr_contents=False, debug=False, syslog=False,
                     )
                     obs["outcome"] = lib.run_impl(lambda: tool.ksrsigner(logging.getLogger("verif"), args, config), bool)
@@ -180,7 +185,8 @@ def run_ceremony(
         obs["line"] = {
             "op": "ksrsigner",
             "actions": actions,
-            "prev": parsed(prev_xml, response_from_xml, lib.response_j),
+            # documented precedence: a previous SKR named on the command line wins over the configured one
+            "prev": parsed(prev_cli_xml if prev_cli_xml is not None else prev_xml, response_from_xml, lib.response_j),
             "ksr": parsed(ksr_xml, request_from_xml, lib.request_j),
             "hsm": C.hsm_j(config),
             "hsmName": hsm_arg,
